@@ -1,4 +1,5 @@
-import MementoModel.Model.Store
+import MementoModel.Lemmas.StoreLemmas
 namespace Memento.Store
+/-- (interim; the refinement theorems are being completed in a scratch copy) -/
 theorem placeholder_spec_empty : Spec.empty.entries = [] := rfl
 end Memento.Store
